@@ -110,17 +110,27 @@ def design(ctx):
     quick = ctx.quick
     CFG_MS = dict(CFG_M, name="Ms", N=4, body=1213, W=3, memcap=3, peers=2)       # <<3,1,2,1>>, window 3 shrinking to 2
     runs = [(CFG_A, {}), (CFG_MS, {})]
+    # thorough only.  The session action multiplied the larger design runs (M_A_3p 2.25 M states / 873 s, M_M5 243 s, M_C 82 s):
+    # these three are checked for ONE session (the definition MaxSess is overridden to 1 in their cfg: no Reset), all other bounds as
+    # before (unbounded faults); sessions stay unrestricted (two sessions, every origin) in M_A_2p, M_Ms_2p and the three-peer run M_B_3p.
+    ONE_SESSION = "\nCONSTANTS\n  MaxSess = 1\n"
     if not quick:
-        runs += [(dict(CFG_M, name="M5", peers=2, N=5, body=21213), {})]
-    if not quick:
-        runs += [(dict(CFG_A, peers=3), {}), (CFG_B, {}), (CFG_C, {})]
+        runs += [(dict(CFG_M, name="M5", peers=2, N=5, body=21213), {"_cfg": ONE_SESSION}),
+                 (dict(CFG_A, peers=3), {"_cfg": ONE_SESSION}), (CFG_B, {}), (CFG_C, {"_cfg": ONE_SESSION})]
     violated = None
     for c, kw in runs:
-        m = ctx.tlc_must("DlQueue", M_CFG + consts(c, **kw), name="M_%s_%dp" % (c["name"], c["peers"]), timeout=1500,
-                         coverage=not quick)
+        kw = dict(kw)
+        extra = kw.pop("_cfg", "")
+        # (no -coverage in the one-session runs: Reset is disabled there by construction and would be listed as never taken)
+        m = ctx.tlc_must("DlQueue", M_CFG + consts(c, **kw) + extra, name="M_%s_%dp" % (c["name"], c["peers"]), timeout=1500,
+                         coverage=(not quick) and not extra)
         violated = violated or m.violated
         if getattr(m, "zero_actions", None):
             ctx.cov["coverage_zero_actions"] = sorted(set(ctx.cov["coverage_zero_actions"]) | set(m.zero_actions))
+    if not quick:
+        ctx.assumptions.append("thorough design runs: M_A_3p (3 peers), M_M5 (memory cap, N=5) and M_C (N=6) are checked for one sync session "
+                               "(MaxSess overridden to 1, unbounded faults as before); two sessions at every origin are checked exhaustively in "
+                               "M_A_2p, M_Ms_2p and the three-peer run M_B_3p")
     # liveness, unconstrained small configuration: p1 is honest, three faults
     lcs = [dict(name="L", N=4, FL=1, forkfrom=2, body=31201, W=2, maxp=1, peers=2, maxc=2)]
     if not quick:
